@@ -40,3 +40,29 @@ VARIANTS += [
     dict(name="c06-silent-cursor-step-by-walrus", property="C06", expect="silent", file=M, old=_CUR_OLD, new=_CUR_WALRUS),
     dict(name="c06-cursor-step-by-walrus-wraps-late", property="C06", rule="C06-G", file=M, old=_CUR_OLD, new=_CUR_WALRUS.replace("== MAX_DYN_IDS", "> MAX_DYN_IDS")),
 ]
+
+P = "src/pyrtma/parser.py"
+V = "src/pyrtma/validators.py"
+_ACK_OLD = "            self.send_failed_message(src_module, header, time.perf_counter())\n\n        # Always forward to logger modules (the requester already has its copy)\n        self.send_to_loggers(header, b\"\", exclude=src_module)\n"
+_ACK_ELSE = "            self.send_failed_message(src_module, header, time.perf_counter())\n        else:\n            # forward to logger modules (the requester already has its copy)\n            self.send_to_loggers(header, b\"\", exclude=src_module)\n"
+
+VARIANTS += [
+    # ---- rules added in wave 7 ----
+    dict(name="c03-subscription-table-as-plain-dict", property="C03", rule="C03-K", file=M,
+         old="        self.subscriptions: Dict[int, Set[Module]] = defaultdict(set)", new="        self.subscriptions: Dict[int, Set[Module]] = {}"),
+    dict(name="c05-failure-notice-on-a-plain-header", property="C05", rule="C05-H", file=M,
+         old="        out_header = self.header_cls()", new="        out_header = MessageHeader()"),
+    dict(name="c14-failure-notice-on-a-plain-header", property="C14", rule="C14-N", file=M,
+         old="        out_header = self.header_cls()", new="        out_header = MessageHeader()"),
+    dict(name="c07-ack-copy-only-after-a-successful-send", property="C07", rule="C07-D", file=M, old=_ACK_OLD, new=_ACK_ELSE),
+    dict(name="c11-alias-answers-with-its-size", property="C11", rule="C11-D", file=P, count=2,
+         old="            return self.type_obj.alignment", new="            return self.type_obj.size"),
+    dict(name="c11-signed-char-without-mirror-entry", property="C11", rule="C11-T", file=P,
+         old='            "signed char": ctypes.c_int8,\n', new=""),
+    dict(name="c09-struct-element-validated-by-value-shape", property="C09", rule="C09-I", file=V,
+         old="            if isinstance(key, slice):\n                self.validate_many(value)", new='            if isinstance(value, abc.Iterable) or hasattr(value, "__getitem__"):\n                self.validate_many(value)'),
+    dict(name="c01-subscription-key-decoded-unsigned", property="C01", rule="C01-R12", file=M, count=2,
+         old="self.subscriptions[sub.msg_type].add(src_module)", new="self.subscriptions[int.from_bytes(bytes(msg.data)[:4], \"little\")].add(src_module)"),
+    dict(name="c01-silent-subscription-key-decoded-signed", property="C01", expect="silent", file=M, count=2,
+         old="self.subscriptions[sub.msg_type].add(src_module)", new="self.subscriptions[sub.msg_type if True else int.from_bytes(bytes(msg.data)[:4], \"little\", signed=True)].add(src_module)"),
+]
